@@ -83,3 +83,56 @@ def debuglink_section(filename, target_bytes, le, wrong=False):
     name = filename + b'\x00'
     name += b'\x00' * ((-len(name)) % 4)
     return name + struct.pack('<I' if le else '>I', crc)
+
+
+# ---------------------------------------------------------------- relocatable objects (C08 differential)
+SHT_SYMTAB, SHT_RELA, SHT_REL = 2, 4, 9
+
+
+def sym_entry(cls, le, name, value, size=0, info=0, other=0, shndx=1):
+    e = '<' if le else '>'
+    if cls == 64:
+        return struct.pack(e + 'IBBHQQ', name, info, other, shndx, value, size)
+    return struct.pack(e + 'IIIBBH', name, value, size, info, other, shndx)
+
+
+def rel_entry(cls, le, offset, sym, typ, addend=None, mips64=False):
+    e = '<' if le else '>'
+    if cls == 64:
+        if mips64:
+            # MIPS64 r_info: sym (32 bits), ssym, type3, type2, type (one byte each), in the file's byte order
+            info = struct.pack(e + 'IBBBB', sym, 0, 0, 0, typ) if not le else struct.pack('<IBBBB', sym, 0, 0, 0, typ)
+            head = struct.pack(e + 'Q', offset) + info
+        else:
+            head = struct.pack(e + 'QQ', offset, (sym << 32) | typ)
+        return head + (struct.pack(e + 'q', addend) if addend is not None else b'')
+    return struct.pack(e + 'II', offset, (sym << 8) | typ) + (struct.pack(e + 'i', addend) if addend is not None else b'')
+
+
+def write_object(cls, le, machine, target_name, target_data, relocs, symbols, rela):
+    """relocatable object: [null, target section, symtab, strtab, .rel[a]<target>, shstrtab]
+    relocs: [(offset, symbol index, type, addend)], symbols: [value] (index 0 is the null symbol)"""
+    e = '<' if le else '>'
+    strtab = b'\x00sym\x00'
+    symtab = sym_entry(cls, le, 0, 0, shndx=0) + b''.join(sym_entry(cls, le, 1, v) for v in symbols[1:])
+    mips64 = (machine == 8 and cls == 64)
+    relbytes = b''.join(rel_entry(cls, le, o, s, t, a if rela else None, mips64) for (o, s, t, a) in relocs)
+    relname = ('.rela' if rela else '.rel') + target_name
+    secs = [(target_name, SHT_PROGBITS, target_data, 0, 0, 0),
+            ('.symtab', SHT_SYMTAB, symtab, 3, 1, 24 if cls == 64 else 16),
+            ('.strtab', SHT_STRTAB, strtab, 0, 0, 0),
+            (relname, SHT_RELA if rela else SHT_REL, relbytes, 2, 1, len(relbytes) // max(1, len(relocs)) if relocs else 0)]
+    names = b'\x00'
+    offs = {}
+    for n, *_ in secs + [('.shstrtab', 0, b'', 0, 0, 0)]:
+        offs[n] = len(names)
+        names += n.encode() + b'\x00'
+    secs.append(('.shstrtab', SHT_STRTAB, names, 0, 0, 0))
+    hsz = 64 if cls == 64 else 52
+    body, table, pos = b'', [_shdr(cls, le, 0, 0, 0, 0, 0, 0)], hsz
+    for n, typ, d, link, info, entsize in secs:
+        table.append(_shdr(cls, le, offs[n], typ, 0, 0, pos, len(d), link, info, 1, entsize))
+        body += d
+        pos += len(d)
+    pad = (-pos) % 8
+    return _ehdr(cls, le, pos + pad, len(table), len(table) - 1, machine) + body + b'\x00' * pad + b''.join(table)
